@@ -241,7 +241,7 @@ def build_harness(P, result):
             replace[os.path.join(REPO, rel)] = dst
             # fact check: the sequence of atomic sites per function the model was written against
             expected = getattr(P, "SITES", {})
-            got = {f["func"]: f["sites"] for f in json.load(open(sites))["funcs"]}
+            got = {f["func"]: f["sites"] for f in (json.load(open(sites))["funcs"] or [])}
             for fn, labs in expected.items():
                 if fn.split(":")[0] != rel:
                     continue
